@@ -281,7 +281,12 @@ reg("legacy.nsga2", heavy=True)(_legacy("UnconstrainedNSGA2SetGeneticAlgorithm")
 # ---- global-only components -------------------------------------------------------------
 @reg("embv", has_rng=False, heavy=True)
 def _embv(ctx, rng, par):
-    m = DenseExpectedMaximumBreedingValueMatrix.from_gmod(ctx.gm, ctx.pg, nprogeny=3, nrep=2)
+    nrep, nprog = 2, 3
+    if par.get("per_taxon"):
+        # per-taxon replicate and progeny numbers (array form), unequal across taxa
+        nrep = numpy.array([1 + (i * 3 + par.get("s", 0)) % 4 for i in range(ctx.nt)], dtype=int)
+        nprog = numpy.array([1 + (i + par.get("s", 0)) % 3 for i in range(ctx.nt)], dtype=int)
+    m = DenseExpectedMaximumBreedingValueMatrix.from_gmod(ctx.gm, ctx.pg, nprogeny=nprog, nrep=nrep)
     return [m.mat]
 
 
